@@ -36,6 +36,9 @@ def cases(ctx):
         if rng.random() < 0.15:      # names whose concatenations collide: 'q1'+'0' = 'q'+'10'
             d1 = gen.random_dfa(rng, 5, Sig, gen.NAME_SCHEMES[5])
             d2 = gen.random_dfa(rng, 5, Sig, gen.NAME_SCHEMES[6])
+        elif rng.random() < 0.06:    # names with commas: (a , b,c) and (a,b , c) are written alike
+            d1 = gen.random_dfa(rng, 3, Sig, lambda j: ['a', 'a,b', 'x'][j])
+            d2 = gen.random_dfa(rng, 3, Sig, lambda j: ['b,c', 'c', 'y'][j])
         elif rng.random() < 0.12:    # names whose '_'-joined pairs collide: (s, t_u) and (s_t, u)
             d1 = gen.random_dfa(rng, 3, Sig, lambda j: ['s', 's_t', 's_t_u'][j])
             d2 = gen.random_dfa(rng, 3, Sig, lambda j: ['u', 't_u', 'x'][j])
@@ -91,6 +94,25 @@ def judge(ctx, c, answers):
         D1, D2 = enc.build_dfa(c['D1']), enc.build_dfa(c['D2'])
         b1, b2 = enc.canon_dfa(D1), enc.canon_dfa(D2)
         res = []
+        # the documented naming scheme '(p,q)' may itself write two different pairs alike when a name contains ',': decided here,
+        # attributed to the recorded finding (same root cause as the C03 / C04 findings)
+        names = {}
+        collide = False
+        for p_ in D1.Q:
+            for q_ in D2.Q:
+                t_ = '(%s,%s)' % (p_, q_)
+                if t_ in names and names[t_] != (p_, q_):
+                    collide = True
+                names[t_] = (p_, q_)
+        if collide and set(c['D1']['Sigma']) == set(c['D2']['Sigma']):
+            ctx.count('product-name-collision')
+            for t in PTYPES:
+                got = call(DA.dfa_product, D1, D2, t)
+                ok = 'ok' in got and oracles.dfa_valid(got['ok']) and oracles.distinguish_pred([D1, D2, got['ok']], D1.Sigma, PRED[t]) is None
+                if not ok:
+                    ctx.violation('product-name-collision:' + t, {'case': c, 'impl': str(got)[:200]}, finding_key='product-name-collision')
+            ctx.case(c, False)
+            return
         for t, la in zip(PTYPES, answers):
             got = call(DA.dfa_product, D1, D2, t)
             if set(c['D1']['Sigma']) != set(c['D2']['Sigma']):
